@@ -44,6 +44,8 @@ def convert_grid_1d(
     is_native = grid_1d.shape[0] == mask_1d.shape_native[0]
 
     if is_native == store_native:
+        if is_native:
+            return grid_1d * np.invert(np.array(mask_1d))
         return grid_1d
     elif not store_native:
         return grid_1d_slim_from(
